@@ -352,6 +352,150 @@ def translate_unit(src, unit, fail):
     return text, snippets
 
 
+# ================================================================================================== self-test
+
+SELFTEST_RS = r"""
+// synthetic functions exercising what dialect "gensa" adds (tools/rs2lean_gensa.py --selftest)
+pub fn inverse(pos: &[usize]) -> LCPArray {
+    let n = pos.len();
+    assert!(
+        n > 0,
+        "a message continued \
+         on the next line"
+    );
+    let mut inv = SmallInts::from_elem(-1, n);
+    for (r, p) in pos.iter().enumerate() {
+        inv.set(*p, r as isize);
+    }
+    inv
+}
+
+pub fn ascents(text: &[T]) -> usize {
+    let n = text.len();
+    let mut bits = BitVec::new_fill(false, n as u64);
+    for p in 0..n - 1 {
+        bits.set_bit(p as u64, text[p] < text[p + 1]);
+    }
+    let mut count = 0;
+    for p in 0..n {
+        count += bits.get_bit(p as u64) as usize;
+    }
+    count
+}
+
+pub fn histogram(&mut self, text: &[T]) -> Vec<usize> {
+    self.sizes.clear();
+    for &c in text {
+        if !self.sizes.contains_key(cast(c).unwrap()) {
+            self.sizes.insert(cast(c).unwrap(), 0);
+        }
+        *(self.sizes.get_mut(cast(c).unwrap()).unwrap()) += 1;
+    }
+    let mut out: Vec<usize> = Vec::with_capacity(text.len());
+    for &size in self.sizes.values() {
+        out.push(size);
+    }
+    out
+}
+
+pub fn mixed(text: &[u8], a: usize, b: usize) -> usize {
+    let n = text.len();
+    let mut k = 0usize;
+    while b + k < n && a + k < n && text[a + k] == text[b + k] {
+        k += 1;
+    }
+    k
+}
+"""
+
+SELFTEST_UNIT = dict(
+    name="SrcSelfTestSa", props="self-test", file="src/selftest.rs", dialect="gensa",
+    functions=[
+        dict(name="inverse", lean="inverse", header="pub fn inverse(pos: &[usize]) -> LCPArray",
+             aliases={"LCPArray": "Vec<isize>"}, params=[("pos", "&[usize]")], ret="LCPArray", locals={"inv": "Vec<isize>"}),
+        dict(name="ascents", lean="ascents", header="pub fn ascents(text: &[T]) -> usize", aliases={"T": "u64"},
+             params=[("text", "&[T]")], ret="usize", locals={"bits": "Vec<bool>", "count": "usize"}),
+        dict(name="histogram", lean="histogram", header="pub fn histogram(&mut self, text: &[T]) -> Vec<usize>",
+             aliases={"T": "u64"}, abstract_fns={"cast": dict(lean="castU", args=["T"], ret="Option<usize>")},
+             self_fields=[("sizes", "VecMap<usize>")], params=[("text", "&[T]")], ret="Vec<usize>"),
+        dict(name="mixed", lean="mixed", header="pub fn mixed(text: &[u8], a: usize, b: usize) -> usize",
+             params=[("text", "&[u8]"), ("a", "usize"), ("b", "usize")], ret="usize", fuel=["n + 1"]),
+    ])
+
+# (statement text placed in `fn f(v: &[u8], n: usize) -> usize { … }`, substring expected in the refusal)
+SELFTEST_REFUSED = [
+    ("let m: VecMap<usize> = VecMap::new(); m.resize(n, 0); n", "no meaning|outside|not declared"),
+    ("let x = SmallInts::from_elem(-1, n); n", "declared vector type|cannot be read off|without a declared"),
+    ("let b = BitVec::new_fill(false, n); n", "BitVec::new_fill|u64|type"),
+    ("n.saturating_sub(1)", "saturating_sub"),
+]
+
+
+def selftest(with_lean):
+    import tempfile, subprocess, shutil
+    import gen_tables
+
+    class Refused(Exception):
+        pass
+
+    def refuse(msg):
+        raise Refused(msg)
+    tmp = tempfile.mkdtemp(prefix="rs2lean-gensa-selftest-", dir="/var/tmp")
+    ok = True
+    try:
+        os.makedirs(os.path.join(tmp, "src"))
+        with open(os.path.join(tmp, "src", "selftest.rs"), "w") as f:
+            f.write(SELFTEST_RS)
+        src = gen_tables.Src(tmp, "src/selftest.rs")
+        text, _ = translate_unit(src, SELFTEST_UNIT, refuse)
+        text2, _ = translate_unit(gen_tables.Src(tmp, "src/selftest.rs"), SELFTEST_UNIT, refuse)
+        if text != text2:
+            print("selftest: translation is not deterministic")
+            ok = False
+        if "def mixed_while1 (text : List Nat) (a : Nat) (b : Nat) (n : Nat)" not in text:
+            print("selftest: helper parameters are not in declaration order")
+            ok = False
+        checks = ["#eval inverse [2, 0, 1]   -- ok [1, 2, 0]", "#eval inverse []   -- panic (assert!)",
+                  "#eval inverse [0, 5]   -- panic (set out of range)",
+                  "#eval ascents [1, 3, 2, 5, 5, 7]   -- ok 3",
+                  "#eval histogram some [] [3, 1, 3, 3, 0, 1]   -- ok (_, [1, 2, 3])",
+                  "#eval histogram (fun _ => none) [] [3]   -- panic (cast)",
+                  "#eval mixed [1, 2, 3, 1, 2, 4] 0 3   -- ok 2"]
+        lean_text = text.replace("end RbV.Gen.SrcSelfTestSa", "\n".join(checks) + "\nend RbV.Gen.SrcSelfTestSa")
+        if with_lean:
+            lf = os.path.join(tmp, "SelfTestSa.lean")
+            with open(lf, "w") as f:
+                f.write(lean_text)
+            lean_dir = os.path.join(os.path.dirname(os.path.dirname(os.path.abspath(__file__))), "lean")
+            p = subprocess.run(["lake", "env", "lean", lf], cwd=lean_dir, stdout=subprocess.PIPE, stderr=subprocess.STDOUT,
+                               text=True, timeout=600)
+            print(p.stdout.strip())
+            want = ["Res.ok [1, 2, 0]", "Res.panic", "Res.ok 3", "[1, 2, 3])", "Res.ok 2"]
+            if p.returncode != 0 or any(w not in p.stdout for w in want) or p.stdout.count("Res.panic") != 3:
+                print("selftest: the generated Lean does not compile or evaluates differently")
+                ok = False
+        else:
+            sys.stdout.write(lean_text)
+        for body, expect in SELFTEST_REFUSED:
+            with open(os.path.join(tmp, "src", "selftest.rs"), "w") as f:
+                f.write("fn f(v: &[u8], n: usize) -> usize {\n    %s\n}\n" % body)
+            u = dict(name="SrcNeg", props="self-test", file="src/selftest.rs", dialect="gensa",
+                     functions=[dict(name="f", lean="f", header="fn f(v: &[u8], n: usize) -> usize",
+                                     params=[("v", "&[u8]"), ("n", "usize")], ret="usize")])
+            try:
+                translate_unit(gen_tables.Src(tmp, "src/selftest.rs"), u, refuse)
+                print("selftest: NOT refused: %s" % body)
+                ok = False
+            except Refused as r:
+                if not re.search(expect, str(r)):
+                    print("selftest: refused for another reason: %s: %s" % (body, r))
+                    ok = False
+    finally:
+        shutil.rmtree(tmp, ignore_errors=True)
+    print("selftest: " + ("ok" if ok else "FAILED"))
+    sys.exit(0 if ok else 1)
+
+
 def main():
     ap = argparse.ArgumentParser()
     ap.add_argument("--repo", default=os.environ.get("VERIF_REPO", "/repo"))
@@ -359,6 +503,8 @@ def main():
     ap.add_argument("--selftest", action="store_true")
     ap.add_argument("--lean", action="store_true")
     a = ap.parse_args()
+    if a.selftest:
+        selftest(a.lean)
     import gen_tables
     if a.unit not in UNITS:
         gen_tables.fail("rs2lean_gensa: unknown unit %s" % a.unit)
